@@ -161,9 +161,8 @@ func (w *World) PeerOpening(s *Swap) *swap.OpeningTxBroadcastedMessage {
 		cltv, csv = 20, 10080
 	}
 	claimMsat := s.Amount * 1000
-	if s.Role == "in_receiver" {
-		claimMsat = (s.Amount - 100) * 1000 // swap-in: claim invoice = amount - premium? (amount checked below by the node)
-		claimMsat = s.Amount * 1000
+	if s.Role == "out_sender" {
+		claimMsat = (s.Amount + 100) * 1000 // swap-out: the claim invoice covers amount + premium
 	}
 	inv := newPeerInvoice("claim", s.ID, claimMsat, cltv)
 	p := &swap.OpeningParams{TakerPubkey: mePub, MakerPubkey: s.peerPub(), ClaimPaymentHash: inv.Hash, Amount: s.Amount, CSV: csv}
